@@ -265,6 +265,18 @@ impl Worker {
 				}
 				None => "RSkipped".into(),
 			},
+			Op::FmtPanic(c, tag) => match self.dc(*c) {
+				Some(d) => {
+					view::PANIC_TAG.with(|x| x.set(Some(*tag)));
+					let r = catch_unwind(AssertUnwindSafe(|| d.fmt_debug()));
+					view::PANIC_TAG.with(|x| x.set(None));
+					match r {
+						Ok(_) => "ROk".into(),
+						Err(e) => classify(e).into(),
+					}
+				}
+				None => "RSkipped".into(),
+			},
 			Op::Fmt(c) => match self.dc(*c) {
 				Some(d) => match catch_unwind(AssertUnwindSafe(|| d.fmt_debug())) {
 					Ok(s) => format!("RN {}", s.matches("<locked>").count()),
